@@ -30,14 +30,14 @@ def rawTx (i : Inp) : Option Tx :=
 /-- one 10 000-sat proposal, fee quote 1 240, a single 10 000-sat UTXO: within all bounds, and the transaction built carries
     a change output of −1 240 satoshi -/
 theorem negative_change_witness :
-    let i : Inp := ⟨some 1, some 1, some [], [0x51], [⟨10000, some [0]⟩], some [⟨[97], 0, 10000, 1000⟩]⟩
+    let i : Inp := ⟨some 1, some 1, some [], [0x51], [⟨10000, some [0]⟩], some [⟨[97], 0, 10000, 1000, true⟩]⟩
     WF i ∧ (rawTx i).map (·.outs.map (·.value)) = some [10000, 0, -1240] ∧ ¬ P16 i (rawTx i) := by
   refine ⟨by decide, by decide, by decide⟩
 
 /-- sufficient funds do not help: selection stops at amount + estimate(1 input), three inputs cost more -/
 theorem negative_change_with_sufficient_funds :
     let i : Inp := ⟨some 1, some 1, some [], [0x51], [⟨10000, some [0]⟩],
-      some [⟨[97], 0, 5000, 1000⟩, ⟨[97], 1, 5000, 1000⟩, ⟨[98], 0, 1100, 1001⟩, ⟨[98], 1, 50000, 1002⟩]⟩
+      some [⟨[97], 0, 5000, 1000, true⟩, ⟨[97], 1, 5000, 1000, true⟩, ⟨[98], 0, 1100, 1001, true⟩, ⟨[98], 1, 50000, 1002, true⟩]⟩
     WF i ∧ ¬ P16 i (rawTx i) := by
   refine ⟨by decide, by decide⟩
 
